@@ -154,7 +154,7 @@ def selfcheck(tier):
 
 
 def budget(tier):
-    return {"timeout": 900.0, "per_path": 40.0}
+    return {"timeout": 300.0, "per_path": 40.0}
 
 
 META = {
